@@ -18,7 +18,7 @@ INVS = {
     "C02": ["C02_Run"],
     "C04": ["C04_Run"],
     "C05": ["C05_Agree"],
-    "C06": ["C06_Class", "C06_FirstBad"],
+    "C06": ["C06_Class", "C06_FirstBad", "C06_NoFalseAccept"],
     "C07": ["C07_Value", "C01_Run"],
     "C08": ["C08_Agree"],
 }
@@ -28,14 +28,15 @@ def population(ctx, flavour):
     s = ctx.seed
     q = ctx.quick()
     if flavour == "values":
-        return (["-nrand", 30 if q else 260, "-nexpr", 8 if q else 60, "-ndp", 6 if q else 40, "-nctx", 4 if q else 40, "-valued", 100],
+        return (["-nrand", 30 if q else 260, "-nexpr", 8 if q else 60, "-ndp", 6 if q else 40, "-nctx", 4 if q else 40,
+                 "-nlong", 8 if q else 60, "-valued", 100],
                 ["-limit", 60 if q else 200, "-nrandom", 40 if q else 120])
     if flavour == "expr":
         return (["-nexpr", 30 if q else 300, "-valued", 100], ["-limit", 150 if q else 1500, "-kmax", 7, "-nrandom", 40 if q else 150])
     # general mix
     return (["-corpus", conf.CORPUS, "-nrand", 24 if q else 220, "-nexpr", 6 if q else 60, "-ndp", 4 if q else 40,
              "-nctx", 8 if q else 80, "-small-max", 3, "-small-slices", 400 if q else 40, "-small-slice", s % (400 if q else 40),
-             "-valued", 60],
+             "-nbig", 1 if q else 5, "-valued", 60],
             ["-limit", 100 if q else 400, "-nrandom", 24 if q else 100])
 
 
@@ -207,7 +208,7 @@ def run_level(ctx, replay, module, invs, flavour="mix", trace=False, prefix="tra
                                inputs_file=os.path.join(d, "inputs.txt"), variants=variants, name="confirm-%d" % n)
             res2 = validate(ctx, out2, module, cfgname, invs, prefix, tag="-confirm%d" % n)
             confirmed = any(r.violations for _, r in res2)
-        rules = "; ".join("%s -> %s" % (ru["lhs"], " ".join(ru["rhs"])) for ru in v["case"]["rules"])
+        rules = "; ".join("%s -> %s" % (ru["lhs"], " ".join(ru["rhs"] or [])) for ru in v["case"]["rules"])
         text = "grammar %s, variant %s, input [%s]: recorded run violates %s %s\n%s" % (
             v["id"], v["variant"], " ".join(v["input"]), v["inv"], v["why"], rules)
         if confirmed:
